@@ -501,6 +501,61 @@ func (c *RC) nonzeroDivisor(fn *FuncInfo, div ast.Expr, validated map[string]boo
 			if d, ok := singleDefs(fn)[v]; ok {
 				return c.nonzeroDivisor(fn, d, validated)
 			}
+			// a parameter of a private helper that is never re-assigned: non-zero if every caller passes a non-zero value
+			if pi := paramIndexOf(fn, v); pi >= 0 && !fn.Decl.Name.IsExported() && !c.A.escapes[fn] && c.divDepth < 4 {
+				reassigned := false
+				ast.Inspect(fn.Decl.Body, func(n ast.Node) bool {
+					switch x := n.(type) {
+					case *ast.AssignStmt:
+						for _, l := range x.Lhs {
+							if lid, ok := ast.Unparen(l).(*ast.Ident); ok && info.Uses[lid] == v {
+								reassigned = true
+							}
+						}
+					case *ast.IncDecStmt:
+						if lid, ok := ast.Unparen(x.X).(*ast.Ident); ok && info.Uses[lid] == v {
+							reassigned = true
+						}
+					}
+					return true
+				})
+				if reassigned {
+					return ""
+				}
+				why, n := "", 0
+				for _, g := range c.Prog.sortedFuncs() {
+					if g.Pkg != fn.Pkg {
+						continue
+					}
+					bad := false
+					ast.Inspect(g.Decl.Body, func(nd ast.Node) bool {
+						call, ok := nd.(*ast.CallExpr)
+						if !ok || pi >= len(call.Args) || call.Ellipsis.IsValid() {
+							return true
+						}
+						fo, _ := typeutil.Callee(g.Pkg.TypesInfo, call).(*types.Func)
+						if fo == nil || c.Prog.Funcs[fo.Origin()] != fn {
+							return true
+						}
+						n++
+						c.divDepth++
+						w := c.nonzeroDivisor(g, call.Args[pi], validated)
+						c.divDepth--
+						if w == "" {
+							bad = true
+						} else {
+							why = w
+						}
+						return true
+					})
+					if bad {
+						return ""
+					}
+				}
+				if n > 0 {
+					return "every caller passes a non-zero value (" + why + ")"
+				}
+			}
 		}
 		return ""
 	}
